@@ -353,6 +353,14 @@ fn reflow_comment_site(run: &Run, a: &str, b: &str) -> &'static str {
     }
 }
 
+/// The site of a C09 difference: F3 (given), else F22 when one of the two runs re-flowed and only comments moved.
+fn c09_reflow_site(given: &'static str, runs: &[&Run], a: &str, b: &str) -> &'static str {
+    if !given.is_empty() {
+        return given;
+    }
+    runs.iter().map(|r| reflow_comment_site(r, a, b)).find(|s| !s.is_empty()).unwrap_or("")
+}
+
 pub fn check_case(ctx: &mut Ctx, case: &Case, cfg: &Cfg, props: &[String], want_session: bool) -> CaseResult {
     let mut res = CaseResult { viols: vec![], session: Session::default(), nontrivial: HashMap::new(), skipped_precondition: 0 };
     let text = &case.text;
@@ -890,7 +898,8 @@ pub fn check_case(ctx: &mut Ctx, case: &Case, cfg: &Cfg, props: &[String], want_
         if let Ok(o2) = &r2.out {
             bump(&mut res, "C09");
             if norm_nl(&out) != norm_nl(o2) {
-                res.viols.push(Viol { prop: "C09", clause: "crlf_is_lf_substituted", detail: format!("{}{c09_site}", first_diff(&norm_nl(&out), &norm_nl(o2))) });
+                let site = c09_reflow_site(c09_site, &[&base, &r2], &norm_nl(&out), &norm_nl(o2));
+                res.viols.push(Viol { prop: "C09", clause: "crlf_is_lf_substituted", detail: format!("{}{site}", first_diff(&norm_nl(&out), &norm_nl(o2))) });
             }
             for v in c08_c09(&r2, o2, wf) {
                 if v.prop == "C09" {
@@ -903,12 +912,13 @@ pub fn check_case(ctx: &mut Ctx, case: &Case, cfg: &Cfg, props: &[String], want_
             if has_verbatim_line_spanning(text, &tin, cfg) {
                 res.skipped_precondition += 1;
             } else {
-                let r3 = ctx.run(&crlf_of(text), cfg, &[], false);
+                let r3 = ctx.run(&crlf_of(text), cfg, &[], true);
                 let c = res.session.call(&r3, wf);
                 res.session.rel("lein", a, c);
                 if let Ok(o3) = &r3.out {
                     if *o3 != out {
-                        res.viols.push(Viol { prop: "C09", clause: "input_endings", detail: format!("{}{c09_site}", first_diff(&out, o3)) });
+                        let site = c09_reflow_site(c09_site, &[&base, &r3], &out, o3);
+                        res.viols.push(Viol { prop: "C09", clause: "input_endings", detail: format!("{}{site}", first_diff(&out, o3)) });
                     }
                 }
                 // mixed endings: some line breaks CRLF, the others LF (two interleavings)
@@ -927,12 +937,13 @@ pub fn check_case(ctx: &mut Ctx, case: &Case, cfg: &Cfg, props: &[String], want_
                     if mixed == *text {
                         continue;
                     }
-                    let r4 = ctx.run(&mixed, cfg, &[], false);
+                    let r4 = ctx.run(&mixed, cfg, &[], true);
                     let d = res.session.call(&r4, wf);
                     res.session.rel("lein", a, d);
                     if let Ok(o4) = &r4.out {
                         if *o4 != out {
-                            res.viols.push(Viol { prop: "C09", clause: "input_endings", detail: format!("(mixed CRLF / LF input) {}{c09_site}", first_diff(&out, o4)) });
+                            let site = c09_reflow_site(c09_site, &[&base, &r4], &out, o4);
+                            res.viols.push(Viol { prop: "C09", clause: "input_endings", detail: format!("(mixed CRLF / LF input) {}{site}", first_diff(&out, o4)) });
                         }
                     }
                 }
